@@ -7,7 +7,48 @@ From DTN Require Import Lib.Bytes Lib.Cbor Lib.CborProofs Lib.Crc Model.Bundle G
 Import ListNotations.
 Local Open Scope Z_scope.
 
-Ltac Zify.zify_post_hook ::= Z.div_mod_to_equations.
+(* no division here; the div/mod hook (set by Lib.Bytes) gets in the way of the boolean goals below *)
+Ltac Zify.zify_post_hook ::= idtac.
+
+(** * 0. Interface to Gen/FragBudget.v
+
+    The only place where the translated definitions are unfolded: each fact is what the
+    rest of the development needs to know about the code's arithmetic, proved by [lia]
+    over whatever the translator emitted (so an equivalent rewriting of the source goes
+    through, and a change of meaning fails here or in the lemmas that use these). *)
+
+Lemma gen_should s m o f :
+  should_fragment s m o f = true <->
+  (s = true /\ m < o /\ flag_set f flag_no_fragment = false /\ flag_set f flag_is_fragment = false).
+Proof.
+  unfold should_fragment. generalize (flag_set f flag_no_fragment) (flag_set f flag_is_fragment). intros x y. lia.
+Qed.
+
+Lemma gen_keep off f n :
+  keep_block off f n = ((off =? 0) || flag_set f flag_replicate || is_payload_block n).
+Proof. unfold keep_block, is_payload_block. generalize (flag_set f flag_replicate). intros x. lia. Qed.
+
+Lemma gen_loop_test off p : frag_loop_test off p = true <-> off < p.
+Proof. unfold frag_loop_test. lia. Qed.
+
+Lemma gen_frag_size m n p : frag_size m n p = m - n + 1 - p.
+Proof. unfold frag_size. lia. Qed.
+
+Lemma gen_size_bad fs : frag_size_bad fs = false <-> 0 < fs.
+Proof. unfold frag_size_bad. lia. Qed.
+
+Lemma gen_offsets off fs :
+  frag_slice_lo off fs = off /\ frag_slice_hi off fs = off + fs /\ frag_next_offset off fs = off + fs.
+Proof. unfold frag_slice_lo, frag_slice_hi, frag_next_offset. lia. Qed.
+
+Lemma gen_init : frag_init_offset = 0.
+Proof. reflexivity. Qed.
+
+Lemma gen_template_btsd : template_btsd = [].
+Proof. reflexivity. Qed.
+
+Lemma gen_flags_nonzero : flag_is_fragment <> 0%N.
+Proof. discriminate. Qed.
 
 (** * 1. Encoded sizes: [length (tx b) = tx_size b] *)
 
@@ -193,7 +234,7 @@ Proof.
 Qed.
 
 Lemma keep_payload off f n : is_payload_block n = true -> keep_block off f n = true.
-Proof. unfold is_payload_block, keep_block. intros H. rewrite H. apply orb_true_r. Qed.
+Proof. intros H. rewrite gen_keep, H. apply orb_true_r. Qed.
 
 (** [payload_of] of a filled template *)
 Lemma find_fill d l : npay l = 1%nat -> option_map btsd (find is_pay (map (fill_blk d) l)) = Some d.
@@ -233,7 +274,7 @@ Section Loop.
     pose proof (tx_size_fill (mkBundle (frag_primary (prim b) off total) (sel_blocks (Z.of_N off) (blocks b))) d) as H.
     cbn [prim blocks] in H. fold (template b off total) in H. rewrite H.
     rewrite npay_sel by (intros; now apply keep_payload). unfold one_payload in Hone. unfold npay. rewrite Hone.
-    unfold template_btsd, olen. cbn [length]. change (head_len (N.of_nat 0)) with 1%nat. lia.
+    rewrite gen_template_btsd. unfold olen. cbn [length]. change (head_len (N.of_nat 0)) with 1%nat. lia.
   Qed.
 
   Lemma fill_template_data off total d : frag_data (fill (template b off total) d) = d.
@@ -262,32 +303,34 @@ Section Loop.
     induction fuel as [|fuel IH]; intros off l Hoff; [discriminate|].
     cbn [frag_loop]. fold plen.
     destruct (frag_loop_test off plen) eqn:Ht.
-    2:{ intros E. inversion E; subst. cbn [chain]. unfold frag_loop_test in Ht. lia. }
+    2:{ intros E. inversion E; subst. cbn [chain]. pose proof (gen_loop_test off plen). destruct (frag_loop_test off plen); [discriminate|]. lia. }
     set (t := template b (Z.to_N off) (olen payload)).
     set (fs := frag_size mtu (tx_size t) pse).
     destruct (frag_size_bad fs) eqn:Hb; [discriminate|].
     destruct (frag_loop fuel b mtu payload pse (frag_next_offset off fs)) as [| |r] eqn:Hr; try discriminate.
     intros E. inversion E; subst l. clear E.
-    unfold frag_loop_test in Ht. unfold frag_size_bad in Hb.
+    apply gen_loop_test in Ht. apply gen_size_bad in Hb.
     assert (Hfs : 0 < fs) by lia.
+    destruct (gen_offsets off fs) as (Hlo & Hhi & Hnext).
     set (d := pyslice payload (frag_slice_lo off fs) (frag_slice_hi off fs)).
     assert (Hlen : Z.of_nat (length d) = Z.min fs (plen - off)).
-    { unfold d, frag_slice_lo, frag_slice_hi. rewrite pyslice_length by lia. fold plen. lia. }
+    { unfold d. rewrite pyslice_length by lia. fold plen. lia. }
     cbn [chain]. exists d. split; [reflexivity|]. split; [lia|]. split; [lia|]. split.
-    { unfold d, pyslice, frag_slice_lo, frag_slice_hi. symmetry. apply firstn_length_firstn. }
+    { unfold d, pyslice. rewrite Hlo. symmetry. apply firstn_length_firstn. }
     split.
     { pose proof (fill_template_size (Z.to_N off) (olen payload) d) as Hsz. fold t in Hsz. rewrite Hsz.
       assert (Hh : (head_len (olen d) <= head_len (olen payload))%nat).
       { apply head_len_mono. unfold olen. fold plen in Hlen. unfold plen in *. lia. }
-      unfold fs, frag_size in *. unfold pse, pyld_size_enc in *. lia. }
-    assert (Hnext : frag_next_offset off fs = off + fs) by reflexivity.
+      pose proof (gen_frag_size mtu (tx_size t) pse) as Hsize. fold fs in Hsize.
+      unfold pse, pyld_size_enc in *. lia. }
     rewrite Hnext in Hr.
     destruct (Z.le_gt_cases fs (plen - off)) as [Hle|Hgt].
     - replace (off + Z.of_nat (length d)) with (off + fs) by lia. apply IH; [lia|exact Hr].
     - (* last fragment: the loop ends at the next test *)
       assert (Hr' : r = []).
       { destruct fuel as [|fuel']; [discriminate|]. cbn [frag_loop] in Hr. fold plen in Hr.
-        unfold frag_loop_test in Hr. destruct (off + fs <? plen) eqn:Hlt; [lia|]. now inversion Hr. }
+        pose proof (gen_loop_test (off + fs) plen) as Hlt.
+        destruct (frag_loop_test (off + fs) plen); [lia|]. now inversion Hr. }
       subst r. cbn [chain]. lia.
   Qed.
 
@@ -301,10 +344,11 @@ Section Loop.
     destruct (frag_loop_test off plen) eqn:Ht; [|discriminate].
     set (fs := frag_size mtu _ pse).
     destruct (frag_size_bad fs) eqn:Hb; [discriminate|].
-    unfold frag_loop_test in Ht. unfold frag_size_bad in Hb.
+    apply gen_loop_test in Ht. apply gen_size_bad in Hb.
+    destruct (gen_offsets off fs) as (_ & _ & Hnext).
     specialize (IH (frag_next_offset off fs)).
     destruct (frag_loop fuel b mtu payload pse (frag_next_offset off fs)); try discriminate.
-    exfalso. apply IH; [|  |reflexivity]; unfold frag_next_offset; lia.
+    exfalso. apply IH; [|  |reflexivity]; rewrite Hnext; lia.
   Qed.
 
   (** consequences of [chain] *)
@@ -372,7 +416,7 @@ Proof.
   destruct (non_pyld_too_big _ _); [discriminate|].
   destruct (frag_loop _ _ _ _ _ _) as [| |r] eqn:Hl; try discriminate.
   intros E. inversion E; subst r. exists pd. split; [reflexivity|]. split; [|reflexivity].
-  apply (frag_loop_chain b (Z.of_N m) pd Hone) in Hl; [exact Hl|unfold frag_init_offset; lia].
+  rewrite gen_init in Hl. apply (frag_loop_chain b (Z.of_N m) pd Hone) in Hl; [exact Hl|lia].
 Qed.
 
 Lemma fragment_step_not_stuck b mtu : fragment_step b mtu <> Stuck.
@@ -382,7 +426,7 @@ Proof.
   destruct (payload_of b) as [pd|]; [|discriminate].
   destruct (non_pyld_too_big _ _); [discriminate|].
   destruct (frag_loop _ _ _ _ _ _) eqn:Hl; try discriminate.
-  exfalso. revert Hl. apply frag_loop_fuel; unfold frag_init_offset; lia.
+  exfalso. revert Hl. rewrite gen_init. apply frag_loop_fuel; lia.
 Qed.
 
 (** an existing fragment, a do-not-fragment bundle, a bundle that fits, a route without MTU *)
@@ -392,18 +436,14 @@ Lemma fragment_step_unchanged b mtu :
   fragment_step b mtu = Unchanged.
 Proof.
   intros H. unfold fragment_step.
-  replace (should_fragment _ _ _ _) with false; [reflexivity|].
-  symmetry. unfold should_fragment.
-  destruct H as [-> | [H | [H | (m & -> & H)]]].
-  - reflexivity.
-  - rewrite H. cbn [negb]. rewrite andb_false_r. reflexivity.
-  - rewrite H. cbn [negb]. rewrite andb_false_r. reflexivity.
-  - destruct (tx_size b >? Z.of_N m) eqn:E; [lia|]. cbn [andb]. reflexivity.
+  match goal with |- context [should_fragment ?s ?m ?o ?f] => destruct (should_fragment s m o f) eqn:E end; [|reflexivity].
+  exfalso. apply gen_should in E. destruct E as (E1 & E2 & E3 & E4).
+  destruct H as [-> | [H | [H | (m & -> & H)]]]; [discriminate|congruence|congruence|lia].
 Qed.
 
 Lemma frag_at_is_fragment b pd o d :
   flag_set (flags (prim (frag_at b pd o d))) flag_is_fragment = true.
-Proof. cbn. apply flag_set_lor. discriminate. Qed.
+Proof. cbn. apply flag_set_lor. exact gen_flags_nonzero. Qed.
 
 (** * 6. One send request *)
 
@@ -449,8 +489,10 @@ Section Send.
       destruct (should_fragment true (Z.of_N m) (tx_size (sec b)) (flags (prim (sec b)))) eqn:Hs.
       + destruct (payload_of (sec b)); [|discriminate]. destruct (non_pyld_too_big _ _); [discriminate|].
         destruct (frag_loop _ _ _ _ _ _); discriminate.
-      + unfold should_fragment in Hs. rewrite Hnf, Hif in Hs. cbn [negb andb] in Hs.
-        rewrite !andb_true_r in Hs. lia.
+      + destruct (Z.le_gt_cases (tx_size (sec b)) (Z.of_N m)) as [Hle|Hgt]; [exact Hle|].
+        exfalso. assert (Ht : should_fragment true (Z.of_N m) (tx_size (sec b)) (flags (prim (sec b))) = true)
+          by (apply gen_should; repeat split; [lia|assumption|assumption]).
+        congruence.
     - (* no payload block: excluded *)
       exfalso. destruct (payload_of_one _ Hone) as (pd & Hp). unfold fragment_step in Hf.
       destruct (should_fragment _ _ _ _); [|discriminate]. rewrite Hp in Hf.
@@ -488,8 +530,8 @@ Proof.
   rewrite (map_ext _ strip) by (intros; apply strip_fill_tmpl).
   f_equal. unfold sel_blocks. rewrite Z2N.id by exact Hoff.
   destruct (N.eqb_spec (Z.to_N off) 0) as [E|E].
-  - apply filter_all. intros k. unfold keep_block. replace off with 0 by lia. reflexivity.
-  - apply filter_ext. intros k. unfold keep_block, replicated, is_pay, is_payload_block.
+  - apply filter_all. intros k. rewrite gen_keep. replace off with 0 by lia. reflexivity.
+  - apply filter_ext. intros k. rewrite gen_keep. unfold replicated, is_pay.
     destruct (off =? 0) eqn:Z0; [lia|]. reflexivity.
 Qed.
 
@@ -578,7 +620,9 @@ Proof.
     destruct (should_fragment true (Z.of_N m) (tx_size (sec b)) (flags (prim (sec b)))) eqn:Hs.
     + destruct (payload_of (sec b)); [|discriminate]. destruct (non_pyld_too_big _ _); [discriminate|].
       destruct (frag_loop _ _ _ _ _ _); discriminate.
-    + unfold should_fragment in Hs. rewrite Hnf, Hif in Hs. cbn [negb andb] in Hs. rewrite !andb_true_r in Hs. lia.
+    + assert (Ht : should_fragment true (Z.of_N m) (tx_size (sec b)) (flags (prim (sec b))) = true)
+        by (apply gen_should; repeat split; [lia|assumption|assumption]).
+      congruence.
   - exfalso. destruct (payload_of_one _ Hone) as (pd & Hp). unfold fragment_step in Hf.
     destruct (should_fragment _ _ _ _); [|discriminate]. rewrite Hp in Hf.
     destruct (non_pyld_too_big _ _); [discriminate|]. destruct (frag_loop _ _ _ _ _ _); discriminate.
@@ -595,14 +639,14 @@ Theorem send_infeasible sec b m pd :
 Proof.
   intros [Hnf Hif] Hp Hbig Hroom. unfold send_request, fragment_step.
   assert (Hs : should_fragment true (Z.of_N m) (tx_size (sec b)) (flags (prim (sec b))) = true).
-  { unfold should_fragment. rewrite Hnf, Hif. cbn [negb andb]. rewrite !andb_true_r. lia. }
+  { apply gen_should. repeat split; [lia|assumption|assumption]. }
   rewrite Hs, Hp.
   destruct (non_pyld_too_big _ _); [reflexivity|].
-  cbn [frag_loop]. unfold frag_init_offset.
+  rewrite gen_init. cbn [frag_loop].
   destruct (frag_loop_test 0 (Z.of_nat (length pd))) eqn:Ht; [|reflexivity].
   change (Z.to_N 0) with 0%N.
-  replace (frag_size_bad _) with true; [reflexivity|].
-  symmetry. unfold frag_size_bad, frag_size. lia.
+  match goal with |- context [frag_size_bad ?x] => destruct (frag_size_bad x) eqn:Hb end; [reflexivity|].
+  exfalso. apply gen_size_bad in Hb. rewrite gen_frag_size in Hb. lia.
 Qed.
 
 Theorem frags_within_mtu b m l :
